@@ -19,7 +19,22 @@ def check(tier, seed):
     mem_sizes = [120, 200, 260, 300, 340, 400, 600, 1000, 5000] if tier == "quick" else list(range(100, 420, 10)) + [600, 1000, 5000, 20000]
     jobs = []
     for (name, src, meta) in fam:
-        if meta.get("depth"):
+        if meta.get("leaf"):
+            # every stack size from well below this program's peak to just above it: the limit is met inside each stack-growing
+            # handler of the leaf in turn (peak measured by the harness hook on a run with an ample stack)
+            r0 = h.run(src=src, args=["25"], gc=0, mem=5000, stack=2000, trace=False, timeout=120)
+            pk = None
+            for l in r0["lines"]:
+                mm = re.search(r"peak_sp=(-?\d+)", l)
+                if l.startswith("end ") and mm: pk = int(mm.group(1))
+            h.cleanup(r0)
+            if pk is None:
+                rep.violation("c14_leaf_nopeak", "# the leaf program did not run to its end with an ample stack\n%s\n%s" % (src, r0["err"][-400:]), True)
+                continue
+            stats["leaf_peak_sp"] = pk
+            for s in range(max(12, pk - (44 if tier == "quick" else 90)), pk + 4):
+                jobs.append(dict(name="%s_s%d" % (name, s), src=src, args=["25"], stack=s, mem=5000, meta=dict(prog=name, axis="stack", size=s)))
+        elif meta.get("depth"):
             for s in stack_sizes:
                 jobs.append(dict(name="%s_s%d" % (name, s), src=src, args=["25"], stack=s, mem=5000, meta=dict(prog=name, axis="stack", size=s)))
         else:
